@@ -57,6 +57,7 @@ static void start_std(int variant) {
 	hx_quiesce();
 	if (populated) populate();
 	if (congested) congest();
+	if (variant & 16) { extern unsigned int bidib_get_and_incr_action_id(void); while (bidib_get_and_incr_action_id() != 9996); }      /* the action-id counter is about to wrap (9999 -> 1): a path taken once in 9999 calls */
 	vs_edges_reset();   /* the README excludes concurrent use during start: the initialisation ceremony (all locks taken once in declaration order) is not a nesting that calls perform */
 }
 static void check_balance(const char *name, int v) {
@@ -144,9 +145,9 @@ static void cat_res(long idx, const run_res_t *r) {
 				if (k == nGl[x][y] && k < MAXLAB) snprintf(Glabels[x][y][nGl[x][y]++], 72, "%s", label); } } }
 }
 static size_t cat_gen(long idx, uint8_t *payload, char *human, size_t hn) {
-	int per = 6, absent = (int) (idx % 7); int from = (int) (idx / 7) * per, to = from + per; if (absent >= 4) absent = absent == 4 ? 4 : absent == 5 ? 6 : 8;   /* variants: 0..3 = connectivity x populated; 4 = congested; 6 = populated + congested */
+	int per = 6, absent = (int) (idx % 8); int from = (int) (idx / 8) * per, to = from + per; if (absent >= 4) absent = absent == 4 ? 4 : absent == 5 ? 6 : absent == 6 ? 8 : 16;   /* variants: 0..3 = connectivity x populated; 4 = congested; 6 = populated + congested */
 	memcpy(payload, &from, 4); memcpy(payload + 4, &to, 4); payload[8] = (uint8_t) absent;
-	snprintf(human, hn, "catalogue entries %d..%d (%s ...)%s%s%s%s", from, to - 1, from < N_ENTRIES ? entry_name(from) : "", absent & 1 ? " with board lc1 disconnected" : "", absent & 2 ? " in the populated state (trains on track)" : "", absent & 4 ? " congested (interface budget exhausted, oc1 stalled)" : "", absent & 8 ? " with a backlog in the send buffer (capacity 200 announced, 96 bytes unflushed)" : "");
+	snprintf(human, hn, "catalogue entries %d..%d (%s ...)%s%s%s%s%s", from, to - 1, from < N_ENTRIES ? entry_name(from) : "", absent & 1 ? " with board lc1 disconnected" : "", absent & 2 ? " in the populated state (trains on track)" : "", absent & 4 ? " congested (interface budget exhausted, oc1 stalled)" : "", absent & 16 ? " with the action-id counter about to wrap" : "", absent & 8 ? " with a backlog in the send buffer (capacity 200 announced, 96 bytes unflushed)" : "");
 	return 9;
 }
 /* cycle search (simple DFS, graphs have < 20 nodes) */
@@ -185,7 +186,7 @@ int c11_run(const char *tier) {
 	int thorough = !strcmp(tier, "thorough");
 	nlk = 0; memset(G, 0, sizeof G);
 	long nchunks = (N_ENTRIES + 5) / 6;
-	ex_spec_t e = { .harness = "c11.cat", .ncases = nchunks * 7, .gen = cat_gen, .on_result = cat_res, .label = "c11.cat" };
+	ex_spec_t e = { .harness = "c11.cat", .ncases = nchunks * 8, .gen = cat_gen, .on_result = cat_res, .label = "c11.cat" };
 	ex_map(&e);
 	/* the waiting calls against spontaneous traffic: probe the dialogue lengths, then every (type, sender, position) */
 	wait_len[0] = wait_len[1] = 0;
@@ -250,7 +251,7 @@ int c11_run(const char *tier) {
 	}
 	rep_count("executions", e.done + pair_execs); rep_count("states", nedges > 0 ? nedges : 1); rep_count("transitions", rep_get("api_calls")); rep_count("distinct_nontrivial", rep_get("api_calls"));
 	rep_flag("exhaustive", e.exhaustive);
-	rep_note("catalogue: %d entries (%d high-level/util, %d low-level, 384 receiver cases) x 7 variants (2 connectivity x {after start-up, populated: trains on track / segments occupied}, congested: interface budget exhausted and oc1 stalled, populated + congested, backlog: large capacity announced and 96 bytes unflushed in the send buffer) = %ld calls; lock-order graph: %d locks, %d edges, %d cycle candidates, %ld explored for confirmation (%ld schedules)",
+	rep_note("catalogue: %d entries (%d high-level/util, %d low-level, 384 receiver cases) x 8 variants (action-id counter about to wrap; 2 connectivity x {after start-up, populated: trains on track / segments occupied}, congested: interface budget exhausted and oc1 stalled, populated + congested, backlog: large capacity announced and 96 bytes unflushed in the send buffer) = %ld calls; lock-order graph: %d locks, %d edges, %d cycle candidates, %ld explored for confirmation (%ld schedules)",
 	         N_ENTRIES, N_HL, N_LL, rep_get("api_calls"), nlk, nedges, nfound, confirmed_runs, pair_execs);
 	return 0;
 }
